@@ -358,8 +358,22 @@ fn str_driver(_ctx: &RunCtx, stats: &mut Stats, rep: &mut Reporter) {
             extra.push(s);
         }
     }
+    // a documented spelling (or nothing) padded to lengths around 2^8, 2^9 and 2^16: a length or cursor kept in a narrower
+    // type would see only the remainder
+    for base in ["", "-", "K", "Kq", "KQkq", "e4", "w", "P", "."] {
+        for pad in ['-', 'K', ' ', 'x', 'q', '4'] {
+            for total in [255usize, 256, 257, 258, 259, 260, 511, 512, 513, 514, 65536, 65537, 65538, 65540] {
+                let fill: String = std::iter::repeat(pad).take(total - base.len()).collect();
+                extra.push(format!("{}{}", base, fill));
+                extra.push(format!("{}{}", fill, base));
+            }
+        }
+    }
     for s in extra {
         let case = json!({"text": s});
+        if s.len() >= 255 {
+            stats.label("padded_to_a_power_of_two_length");
+        }
         if let Err(f) = guarded("C20", "short_strings", str_check, &case, stats) {
             rep(case, f);
         }
@@ -600,6 +614,35 @@ fn gen_bb_case(cur: &mut Cursor) -> Value {
         }
         3 => a = 1u64 << cur.below(64) | 1u64 << cur.below(64),
         _ => {}
+    }
+    // sets made of whole 8-, 16- and 32-square blocks (ranks, rank pairs, halves), possibly with a little noise: a
+    // routine that treats a full block as a special case meets one here
+    if cur.chance(40) {
+        let mut m = 0u64;
+        let sel = cur.u8();
+        match sel % 3 {
+            0 => {
+                for r in 0..8 {
+                    if cur.bool() {
+                        m |= 0xffu64 << (8 * r);
+                    }
+                }
+            }
+            1 => {
+                for r in 0..4 {
+                    if cur.bool() {
+                        m |= 0xffffu64 << (16 * r);
+                    }
+                }
+            }
+            _ => m = if cur.bool() { 0xffff_ffff } else { 0xffff_ffff_0000_0000 },
+        }
+        let noise = cur.u64() & cur.u64() & cur.u64() & cur.u64();
+        a = match cur.below(3) {
+            0 => m,
+            1 => m | noise,
+            _ => m & !noise,
+        };
     }
     // extreme sets: empty, full, one element, all but one
     match cur.below(24) {
